@@ -1,5 +1,6 @@
 """C14 - applying or removing formatting touches exactly the named attributes."""
 import itertools
+import json
 
 import enc
 import fmtlib
@@ -228,15 +229,31 @@ class C14(PureCheck):
                 ev["base"] = {"k": "f", "v": enc.enc_fmtstr(FmtStr.from_str(text))}
                 ev["rawbase"] = inp["base"]
 
+            import zlib
+            ask = zlib.crc32(json.dumps(inp, sort_keys=True, default=str).encode()) % 2 == 0
+            last = []
+
             def run():
+                from curtsies.formatstring import FmtStr
                 cur = enc.build_value(inp["base"])
                 for step in inp["steps"]:
+                    if ask and isinstance(cur, FmtStr) and cur.chunks:
+                        cur.shared_atts, cur.upper()      # the value is asked what it shares before it is restyled
                     cur = build_call(cur, step)
+                last[:] = [cur]
                 return cur
             if any(st["via"] == "funckw" for st in inp["steps"]):
                 ev["steps"] = [st if st["via"] != "funckw" else
                                {"via": "fmtstr", "items": st["items"][1:] + [dict(st["items"][0], k="style")]} for st in inp["steps"]]
             ev["res"] = fmtlib.enc_res(run)
+            ev["rm"] = [0] * 8
+            if ev["res"]["k"] == "ok" and last and getattr(last[0], "chunks", None):
+                try:
+                    d = last[0].shared_atts
+                    m = enc.enc_atts(d)
+                    ev["rm"] = [0 if k not in d else 1 + m[i] for i, k in enumerate(enc.ATT_ORDER)]
+                except Exception:  # noqa
+                    pass
         elif op == "remove":
             f = enc.build_fmtstr(inp["f"])
             ev["res"] = fmtlib.enc_res(lambda: f.new_with_atts_removed(*inp["names"]))
